@@ -349,9 +349,15 @@ class Evaluator:
                     rhs = rhs.copy_value()
                 self.store(e["a"][0], rhs, env, this)
                 return rhs
-            if e.get("op") in ("==", "!=", "<", ">", "<=", ">=") and len(e.get("a", [])) == 2 and not has_body:
+            if e.get("op") in ("==", "!=", "<", ">", "<=", ">=") and len(e.get("a", [])) == 2 and e.get("obj") is None:
                 a = self.eval(e["a"][0], env, this)
                 b = self.eval(e["a"][1], env, this)
+                if has_body and (hasattr(a, "_cls") or hasattr(b, "_cls")):
+                    # an interpreted class instance: its own comparison operator decides, not object identity
+                    callee = self.prog.funcs[e["fid"]]
+                    if e.get("ismethod") and not e.get("static"):
+                        return self.call(callee, a, [b])
+                    return self.call(callee, None, [a, b])
                 return self.binop(e["op"], a, b)
             if self.prog is not None and e.get("own") and e.get("fid") in self.prog.funcs:
                 callee = self.prog.funcs[e["fid"]]
